@@ -523,6 +523,9 @@ def _r5(run, prog, classes):
     if fn is None:
         raise AnalysisError('anchored method vanished: LaserSpectrum._update_cache')
     K = ci.mod.name + '|LaserSpectrum|_update_cache|'
+    from ..inline import flatten, class_lookup, inline_trivial_properties
+    # parts of the builder moved into private methods are read where they are called; reads through plain properties read the field
+    fn = flatten(fn, class_lookup(prog, ci), keep=('_get_bin_power_spectral_density', 'evaluate', '_update_cache'))
     ev = SpecEval()
     mn, mx, bins = L('self._min_wavelength'), L('self._max_wavelength'), L('self._bins')
     delta = (mx - mn) / bins
@@ -578,12 +581,14 @@ def _r5(run, prog, classes):
         run.fail('C18-R5', K + 'power', ci.mod.relpath, fn.lineno, 'bin power is %s, expected bin density * delta' % (p[0] if p else None))
     # the density of bin i is evaluated over [lower, lower + delta], lower starting at min and advanced by delta
     run.subject('C18-R5')
-    lower0 = ev.env.get('wvl_lower')
-    rec = [e for e in edges if e[0].startswith('recurrence:')]
     call = None
     for n in ast.walk(fn):
         if isinstance(n, ast.Call) and self_chain(n.func) == '_get_bin_power_spectral_density':
             call = n
+    # the local holding the lower edge is whatever is passed first to the density (any name, also after helper expansion)
+    lname = call.args[0].id if call is not None and call.args and isinstance(call.args[0], ast.Name) else 'wvl_lower'
+    lower0 = ev.env.get(lname)
+    rec = [e for e in edges if e[0] == 'recurrence:' + lname] or [e for e in edges if e[0].startswith('recurrence:')]
     ok = False
     if call is not None and lower0 is not None and len(call.args) == 2:
         a0, a1 = ev.ev(call.args[0]), ev.ev(call.args[1])
@@ -600,6 +605,12 @@ def _r5(run, prog, classes):
     gf = g.methods.get('_get_bin_power_spectral_density')
     if gf is None:
         raise AnalysisError('anchored method vanished: GaussianSpectrum._get_bin_power_spectral_density')
+    gf = flatten(gf, class_lookup(prog, g), keep=('evaluate',))
+    from ..inline import propagate as _propagate
+    try:
+        gf = _propagate(gf)
+    except Exception:
+        pass
     ge = SpecEval()
     lo, up = [a.arg for a in gf.args.args[1:3]]
     rec2 = []
